@@ -233,6 +233,44 @@ func readStage(fname string, r *rand.Rand, n int) (core.Stage, error) {
 						"p": p, "via": []string{"find", "constrain"}[(i+k)%2]})
 				}
 			}
+			// the group syntax prefix/(x;y) after a prefix of every length the schema has, as fields
+			// and as fc.xfields, on the covering trees
+			{
+				all := relSchemaPaths(f, abs.Path{}, 8, nil)
+				byParent := map[string][][]string{}
+				var order []string
+				for _, sp := range all {
+					if len(sp) < 2 {
+						continue
+					}
+					k := strings.Join(sp[:len(sp)-1], "/")
+					if _, ok := byParent[k]; !ok {
+						order = append(order, k)
+					}
+					byParent[k] = append(byParent[k], sp)
+				}
+				trees := coverTrees(f, r)
+				ti := 0
+				for _, k := range order {
+					kids := byParent[k]
+					if len(kids) < 2 || len(trees) == 0 {
+						continue
+					}
+					a, b := kids[0], kids[1]
+					expr := k + "/(" + a[len(a)-1] + "%3B" + b[len(b)-1] + ")"
+					for v, param := range []string{"fields", "fc.xfields"} {
+						pp := dread.Params{Raw: param + "=" + expr}
+						if v == 0 {
+							pp.Fields = [][]string{a, b}
+						} else {
+							pp.XFields = [][]string{a, b}
+						}
+						ti++
+						emit(core.Case{"kind": "read", "fixture": fname, "store": stores[ti%len(stores)], "tree": trees[ti%len(trees)], "at": abs.Path{},
+							"p": pp, "via": []string{"find", "constrain"}[ti%2]})
+					}
+				}
+			}
 			for i := 0; i < n; i++ {
 				t := g.Subtree(abs.Path{})
 				store := stores[i%len(stores)]
